@@ -369,3 +369,14 @@ def run(chk, repo, tier):
            what='the scheme constructor copies its list/dict arguments '
                 '(it extends them when schemes are included)',
            found='; '.join(aliases))
+    # reading a library never inserts into it: its container and accessors
+    for q in ('GroupLibrary.__init__', 'GroupLibrary.__getitem__',
+              'GroupLibrary.__contains__', 'GroupLibrary.__iter__',
+              'GroupLibrary.GetDescriptors', 'GroupLibrary.Estimate'):
+        if repo.has_func(LIB, q):
+            reviewed.check(chk, 'R15.5', repo, LIB, q,
+                           '%s is unchanged in normal form from its reviewed '
+                           'reference (a plain dict built from the caller\'s '
+                           'pairs; lookups through .get with a fresh default)'
+                           % q)
+
